@@ -220,7 +220,8 @@ theorem insertDefTableOpts_defaults (ed : Editor α) (pos : Int) (defs : List (L
     (hidem : (o.withDefaults cx).withDefaults cx = o.withDefaults cx) :
     ed.insertDefTableOpts cx pos defs width o =
       ed.insertDefTableOpts cx pos defs width (o.withDefaults cx) := by
-  unfold Editor.insertDefTableOpts
+  simp only [Editor.insertDefTableOpts_eq_core]
+  unfold Editor.insertDefTableOptsCore
   rw [hidem]
 
 omit [DecidableEq α] in
@@ -371,7 +372,8 @@ theorem justifyOpts_shape (ed r : Editor α) (w : Int) (o : Options α)
 theorem insertDefTableOpts_shape (ed r : Editor α) (pos : Int) (defs : List (List α × List α))
     (width : Int) (o : Options α)
     (h : ed.insertDefTableOpts cx pos defs width o = .ok r) : ed.SameBut r := by
-  unfold Editor.insertDefTableOpts at h
+  simp only [Editor.insertDefTableOpts_eq_core] at h
+  unfold Editor.insertDefTableOptsCore at h
   dsimp only at h
   obtain ⟨full, -, h⟩ := bind_ok.1 h
   split at h
